@@ -63,11 +63,14 @@ const (
 	// expressionPrecedenceMultiplication is the expressionPrecedence of
 	// - BinaryExpression, with OperationMul, OperationMod, or OperationDiv
 	expressionPrecedenceMultiplication
+	// expressionPrecedenceMove is the expressionPrecedence of
+	// - UnaryExpression, with OperationMove
+	expressionPrecedenceMove
 	// expressionPrecedenceCasting is the expressionPrecedence of
 	// - CastingExpression
 	expressionPrecedenceCasting
 	// expressionPrecedenceUnaryPrefix is the expressionPrecedence of
-	// - UnaryExpression
+	// - UnaryExpression, with any other operation
 	// - CreateExpression
 	// - DestroyExpression
 	// - ReferenceExpression
